@@ -424,6 +424,60 @@ func (s *Sim) opMisuse(op *Op) {
 				s.violate("C10", "pre.panics", "missing_target_chain/"+variant, false, "adding a relation component without its target did not panic (after the call %q had been accepted); the relation now targets %v", variant, u.GetRelation(e, rB))
 			}
 		}
+	case "nonrel_target":
+		// A relation target given for a component that is not a relation component, through the
+		// ID-based API: rejected as in the typed API, without effect - whether or not the
+		// archetype the call leads to exists already.
+		e, tgE := s.M.PickLive(op.E), s.M.PickLive(op.E+1)
+		if e == nil || tgE == nil || s.locked() {
+			s.skip(op)
+			return
+		}
+		variant := abs(int(op.X)) % 4
+		c := -1
+		for k := 0; k < NumTypes; k++ {
+			t := (abs(op.N) + k) % NumTypes
+			if !U[t].IsRel && e.Has(t) == (variant == 3) {
+				c = t
+				break
+			}
+		}
+		if c < 0 {
+			s.skip(op)
+			return
+		}
+		u := s.W.Unsafe()
+		rel := ecs.RelID(s.ids[c], tgE.H)
+		switch variant {
+		case 0:
+			s.expectPanic("Unsafe.AddRel", "nonrel_target", func() { u.AddRel(e.H, []ecs.ID{s.ids[c]}, rel) })
+		case 1:
+			s.expectPanic("Unsafe.NewEntityRel", "nonrel_target", func() { u.NewEntityRel([]ecs.ID{s.ids[c]}, rel) })
+		case 2:
+			s.expectPanic("Unsafe.Exchange", "nonrel_target", func() { u.Exchange(e.H, []ecs.ID{s.ids[c]}, nil, rel) })
+		default:
+			s.expectPanic("Unsafe.SetRelations", "nonrel_target", func() { u.SetRelations(e.H, rel) })
+		}
+		if !s.fatal {
+			// the world is still usable: a query over that component runs and leaves the world unlocked
+			want := 0
+			for _, l := range s.M.Live {
+				if s.M.Get(l).Has(c) {
+					want++
+				}
+			}
+			n := -1
+			p, val := s.call(func() {
+				q := ecs.NewUnsafeFilter(s.W, s.ids[c]).Query()
+				n = 0
+				for q.Next() {
+					n++
+				}
+			})
+			if p || n != want || s.W.IsLocked() {
+				s.violate("C10", "pre.unchanged", "nonrel_target/query", true, "after the rejected call (variant %d) a query for T%02d yields %d entities (expected %d), panic=%v, locked=%v", variant, c, n, want, val, s.W.IsLocked())
+			}
+		}
 	case "empty_list":
 		e := s.M.PickLive(op.E)
 		if e == nil || s.locked() {
